@@ -837,7 +837,8 @@ func kinds() *World {
 					},
 					Blocks: map[string]*schema.BlockSchema{
 						"part": {Type: schema.BlockTypeList, Body: &schema.BodySchema{Attributes: map[string]*schema.AttributeSchema{
-							"w": {IsOptional: true, Constraint: schema.AnyExpression{OfType: cty.Number}}}}},
+							"w": {IsOptional: true, Constraint: schema.AnyExpression{OfType: cty.Number}},
+							"h": {IsOptional: true, Constraint: schema.AnyExpression{OfType: cty.Number}}}}},
 					},
 				},
 			},
@@ -876,16 +877,22 @@ thing "a" {
   l = ["p", "q"]
   part {
     w = self.n
+    h = 3
   }
   part {
     w = 2
+    h = self.part[0].w
   }
 }
 thing "b" {
   count = 2
-  s = thing.a.s
+  s = self.l[0]
   n = count.index
-  l = thing.a.l
+  l = ["z", thing.a.l[1]]
+  part {
+    w = self.part[0].h
+    h = 1
+  }
 }
 `
 	return &World{Name: "kinds", Schema: s, Funcs: stdFuncs(), Docs: map[string]string{"k.tf": doc}}
